@@ -282,7 +282,7 @@ def real_desc(cfg, inp):
         ps = mokapot.read_pin(p, max_workers=1)[0]
         sc = [float(x) for x in inp["collections"][0]["scores"]]
         old = C.peps_from_scores
-        C.peps_from_scores = lambda s, t, a="qvality": np.full(len(s), 0.5)
+        C.peps_from_scores = __import__("checks.conflib", fromlist=["x"]).real_pep_stub
         try:
             mokapot.assign_confidence([ps], max_workers=1, scores=[np.array(sc, dtype=float)], descs=[desc], dest_dir=Path(out), prefixes=[None], decoys=True)
         except Exception as ex:
